@@ -79,6 +79,10 @@ def run(ctx: core.Ctx) -> int:
         c = E.gen_pattern_base_case(rng, ctx, k)
         c["precalc"] = rng.random() < 0.4
         cases.append(c)
+    for k in range(ctx.n(18, 180)):
+        c = E.gen_cross_base_case(rng, ctx, k)
+        c["precalc"] = False
+        cases.append(c)
     for i, c in enumerate(cases):
         ctx.count("eval_falsifier")
         falsify(ctx, c)
